@@ -155,6 +155,17 @@ def param_probes():
         add('option', 'progress', 'progress_bar', pos, lambda v=v: list(progress_bar(iter([1, 2]), v, 2)))
         add('option', 'progress', 'compute_features_2d', pos,
             lambda v=v: compute_features_2d(np.array([sig, sig[::-1]]), fs, fr, {'threshold_kwargs': dict(thr)}, n_jobs=1, progress=v))
+    # unknown options in degenerate contexts (boundary removing every extremum, two-row tables, single signals): validation must not depend on the data
+    kind = 'option_in_degenerate_context'
+    add(kind, 'first_extrema', 'find_extrema(boundary removes all extrema)', 'unknown', lambda: find_extrema(sig, fs, fr, first_extrema='both', boundary=len(sig)))
+    add(kind, 'first_extrema', 'find_extrema(boundary leaves one extremum)', 'unknown', lambda: find_extrema(sig, fs, fr, first_extrema='both', boundary=len(sig) // 2 - 4))
+    add(kind, 'center_extrema', 'compute_features(large boundary)', 'unknown', lambda: compute_features(sig, fs, fr, center_extrema='middle', threshold_kwargs=dict(thr), find_extrema_kwargs={'boundary': len(sig)}))
+    add(kind, 'burst_method', 'compute_burst_features(two-row table)', 'unknown', lambda: compute_burst_features(df_s.iloc[:2].reset_index(drop=True), sig, burst_method='foo', burst_kwargs={}))
+    add(kind, 'direction', 'compute_amp_consistency(two-row table)', 'unknown', lambda: compute_amp_consistency(df_s.iloc[:2].reset_index(drop=True), direction='sideways'))
+    add(kind, 'direction', 'compute_period_consistency(two-row table)', 'unknown', lambda: compute_period_consistency(df_s.iloc[:2].reset_index(drop=True), direction='sideways'))
+    add(kind, 'progress', 'compute_features_2d(one row)', 'unknown', lambda: compute_features_2d(np.array([sig]), fs, fr, {'threshold_kwargs': dict(thr)}, n_jobs=1, progress='bar'))
+    add(kind, 'min_n_cycles', 'check_min_burst_cycles(no True)', 'unknown', lambda: check_min_burst_cycles(np.zeros(5, dtype=bool), min_n_cycles=-1))
+    add(kind, 'threshold', 'detect_bursts_cycles(no qualifying cycle)', 'unknown', lambda: detect_bursts_cycles(df_c.assign(amp_fraction=0.0), **dict(thr, monotonicity_threshold=1.5)))
     for pos, arr in (('too_few', np.array(1.0)), ('ok', sig), ('too_many', np.array([sig, sig]))):
         add('ndim', 'sig', 'Bycycle.fit', pos, lambda arr=arr: Bycycle(thresholds=dict(thr)).fit(arr, fs, fr))
     for pos, arr in (('too_few', sig), ('ok', np.array([sig, sig[::-1]])), ('too_many', np.array([[[sig, sig]]]))):
